@@ -5,6 +5,8 @@ import sys
 import time
 
 VERIF = os.path.dirname(os.path.dirname(os.path.abspath(__file__)))
+# evidence/ and replay/ are written under OUT (the self-test redirects them to its scratch dir)
+OUT = os.environ.get("VERIF_OUT", VERIF)
 
 
 class CheckerFault(Exception):
@@ -27,6 +29,7 @@ class Report:
         self.faults = []
         self.assumptions = []
         self.not_decided = ""
+        self.extra = {}        # extra coverage keys (thorough tier: sensitivity)
 
     # -------------------------------------------------------------- recording
     def rule(self, rid, desc, floor=None):
@@ -77,7 +80,7 @@ class Report:
             else:
                 viol.append((full, d, s))
         wall = time.time() - self.t0
-        os.makedirs(os.path.join(VERIF, "evidence"), exist_ok=True)
+        os.makedirs(os.path.join(OUT, "evidence"), exist_ok=True)
         samples = []
         for (r, k, ok, d, s) in self.obs:
             if len(samples) >= 12:
@@ -112,7 +115,8 @@ class Report:
             "wall_s": round(wall, 3),
             "violations": len(viol),
         }
-        with open(os.path.join(VERIF, "evidence", "%s.json" % self.prop), "w") as f:
+        ev["coverage"].update(self.extra)
+        with open(os.path.join(OUT, "evidence", "%s.json" % self.prop), "w") as f:
             json.dump(ev, f, indent=1, sort_keys=False)
         print("%s: %d obligations over %d functions / %d sites; %d held, %d known finding(s), %d violation(s) [%.1fs]" % (
             self.prop, nob, len(self.fns_analysed), self.sites, ndis, len(kf), len(viol), wall))
@@ -125,8 +129,8 @@ class Report:
                 print("CHECKER-FAULT property=%s %s" % (self.prop, m))
         rc = 0
         if viol:
-            os.makedirs(os.path.join(VERIF, "replay"), exist_ok=True)
-            rp = os.path.join(VERIF, "replay", "%s.json" % self.prop)
+            os.makedirs(os.path.join(OUT, "replay"), exist_ok=True)
+            rp = os.path.join(OUT, "replay", "%s.json" % self.prop)
             with open(rp, "w") as f:
                 json.dump({"property": self.prop, "violations": [
                     {"key": full, "detail": d, "site": s} for (full, d, s) in viol]}, f, indent=1)
